@@ -56,25 +56,30 @@ PR(r) == [x |-> FALSE, r |-> r]
 PErr(k) == [err |-> k]
 IsErr(p) == "err" \in DOMAIN p
 POfV(v) == IF v.t = "real" THEN PR(MkReal(v.s, v.e, v.m)) ELSE PX(QOf(v))
-PReal(p) == IF p.x THEN RealOfQ(p.q) ELSE p.r
-PBin(op, a, b) ==
+\* mode 1: an exact number is converted by one correctly rounded division; mode 2: numerator and denominator
+\* are converted first and then divided (the two agree unless a component exceeds 2^24)
+PRealM(p, mode) == IF ~p.x THEN p.r ELSE IF mode = 1 THEN RealOfQ(p.q) ELSE RealOfRatioTwoStep(p.q.n, p.q.d)
+PReal(p) == PRealM(p, 1)
+PBinM(op, a, b, mode) ==
   IF IsErr(a) THEN a ELSE IF IsErr(b) THEN b
   ELSE IF a.x /\ b.x
   THEN CASE op = "+" -> PX(QAdd(a.q, b.q))
          [] op = "-" -> PX(QSub(a.q, b.q))
          [] op = "*" -> PX(QMul(a.q, b.q))
          [] op = "/" -> IF QIsZero(b.q) THEN PErr("DivByZero") ELSE PX(QDiv(a.q, b.q))
-  ELSE LET x == PReal(a)
-           y == PReal(b)
+  ELSE LET x == PRealM(a, mode)
+           y == PRealM(b, mode)
        IN CASE op = "+" -> PR(RAdd(x, y)) [] op = "-" -> PR(RSub(x, y))
             [] op = "*" -> PR(RMul(x, y)) [] op = "/" -> PR(RDiv(x, y))
-RECURSIVE PFold(_, _, _, _)
-PFold(op, acc, args, i) == IF i > Len(args) THEN acc ELSE PFold(op, PBin(op, acc, POfV(args[i])), args, i + 1)
+PBin(op, a, b) == PBinM(op, a, b, 1)
+RECURSIVE PFold(_, _, _, _, _)
+PFold(op, acc, args, i, mode) == IF i > Len(args) THEN acc ELSE PFold(op, PBinM(op, acc, POfV(args[i]), mode), args, i + 1, mode)
 \* (+) = 0, (*) = 1, (- x) = 0 - x, (/ x) = 1 / x
-Arith(op, args) ==
-  IF op \in {"+", "*"} THEN PFold(op, PX(QInt(BigOfInt(IF op = "+" THEN 0 ELSE 1))), args, 1)
-  ELSE IF Len(args) = 1 THEN PBin(op, PX(QInt(BigOfInt(IF op = "-" THEN 0 ELSE 1))), POfV(args[1]))
-  ELSE PFold(op, POfV(args[1]), args, 2)
+ArithM(op, args, mode) ==
+  IF op \in {"+", "*"} THEN PFold(op, PX(QInt(BigOfInt(IF op = "+" THEN 0 ELSE 1))), args, 1, mode)
+  ELSE IF Len(args) = 1 THEN PBinM(op, PX(QInt(BigOfInt(IF op = "-" THEN 0 ELSE 1))), POfV(args[1]), mode)
+  ELSE PFold(op, POfV(args[1]), args, 2, mode)
+Arith(op, args) == ArithM(op, args, 1)
 
 \* ---- order
 PCmp(a, b) ==      \* -1, 0, 1, or 2 when unordered (NaN)
@@ -108,6 +113,8 @@ ArithVerdict(op, args, res) ==
         ELSE Reported(res) /\ (res.k = "value" /\ IsExactV(res.v) => ResIsExactEqual(res, p.q)))   \* never a wrong exact number
   ELSE \* an inexact operand: the IEEE result on the converted operands
        \/ ResIsReal(res, p.r)
+       \* an exact partial result with a component above 2^24 may be converted component-wise (soundness rule 6)
+       \/ ResIsReal(res, ArithM(op, args, 2).r)
        \* r7rs 6.2.6: an exact zero divisor "is an error" also for an inexact dividend - signalling it is allowed
        \/ (op = "/" /\ ResIsError(res, "DivByZero") /\
            \E i \in DOMAIN args : (i > 1 \/ Len(args) = 1) /\ IsExactV(args[i]) /\ QIsZero(QOf(args[i])))
